@@ -1,6 +1,7 @@
 package props
 
 import (
+	"bytes"
 	"encoding/gob"
 	"fmt"
 	"io"
@@ -27,6 +28,7 @@ type decCase struct {
 	SrcSpare  int    `json:"srcspare,omitempty"`  // spare capacity behind src (filled with SparePat)
 	DictSpare int    `json:"dictspare,omitempty"` // spare capacity behind dict
 	SparePat  int    `json:"sparepat,omitempty"`  // content of the spare capacities of src and dict
+	NoArena   bool   `json:"noarena,omitempty"`   // cases larger than the arenas: plain heap slices, canaries around dst
 }
 
 type decResult struct {
@@ -83,6 +85,9 @@ func prefill(dst []byte, fill int) {
 func execDecode(c decCase) (res decResult) {
 	if err := arenas(); err != nil {
 		return decResult{Status: "harness", Detail: err.Error()}
+	}
+	if c.NoArena {
+		return execDecodeHeap(c)
 	}
 	if len(c.Src)+c.SrcSpare > arenaSrc || c.DstLen+c.Spare+8192 > arenaDst || len(c.Dict)+c.DictSpare > arenaDict || c.DstLen < 0 {
 		return decResult{Status: "harness", Detail: "case too large for the arenas"}
@@ -158,6 +163,59 @@ func execDecode(c decCase) (res decResult) {
 	}
 	if c.SrcSpare > 0 || c.DictSpare > 0 {
 		res.Whole = append([]byte(nil), dst...)
+	}
+	return res
+}
+
+// execDecodeHeap: the same call for cases that do not fit the arenas (multi-megabyte literal runs, matches and length
+// fields): heap slices, canaries in front of dst and in its spare capacity.
+func execDecodeHeap(c decCase) (res decResult) {
+	const lead = 4096
+	back := make([]byte, lead+c.DstLen+c.Spare)
+	before := back[:lead]
+	dst := back[lead : lead+c.DstLen : lead+c.DstLen+c.Spare]
+	after := back[lead+c.DstLen:]
+	src := append([]byte(nil), c.Src...)
+	var dict []byte
+	if len(c.Dict) > 0 {
+		dict = append([]byte(nil), c.Dict...)
+	}
+	prefill(dst, c.Fill)
+	inst.FillCanary(before)
+	inst.FillCanary(after)
+	old := debug.SetPanicOnFault(true)
+	defer debug.SetPanicOnFault(old)
+	defer func() {
+		if r := recover(); r != nil {
+			res = decResult{Status: "panic", Detail: fmt.Sprint(r)}
+			if e, ok := r.(interface{ Addr() uintptr }); ok {
+				res.Status = "fault"
+				res.Detail = fmt.Sprintf("%v (address %#x)", r, e.Addr())
+			}
+		}
+	}()
+	var n int
+	var err error
+	if dict == nil {
+		n, err = lz4.UncompressBlock(src, dst)
+	} else {
+		n, err = lz4.UncompressBlockWithDict(src, dst, dict)
+	}
+	if i := inst.CheckCanary(after); i >= 0 {
+		return decResult{Status: "canary", N: n, Detail: fmt.Sprintf("byte %d after dst[:len] was modified (n=%d err=%v)", i, n, err)}
+	}
+	if i := inst.CheckCanary(before); i >= 0 {
+		return decResult{Status: "canary", N: n, Detail: fmt.Sprintf("byte %d before dst was modified (n=%d err=%v)", i-len(before), n, err)}
+	}
+	if !bytes.Equal(src, c.Src) || !bytes.Equal(dict, c.Dict) {
+		return decResult{Status: "canary", N: n, Detail: "src or dict was modified by the decoder"}
+	}
+	if err != nil {
+		return decResult{Status: "error", N: n, Detail: err.Error()}
+	}
+	res = decResult{Status: "ok", N: n}
+	if n >= 0 && n <= len(dst) {
+		res.Out = append([]byte(nil), dst[:n]...)
 	}
 	return res
 }
